@@ -13,6 +13,7 @@ Section Engine.
   Variable W : N.        (* MAX_REORG_HISTORY_SIZE *)
   Variable FN : N.       (* MAX_FUTURE_TRANSACTION_NONCES *)
   Variable FB : N.       (* MAX_FUTURE_TRANSACTION_BLOCKS *)
+  Variable IDX : N.      (* INDEXER_ADDRESS as a number *)
 
   (* a parked transaction: (nonce, block it was parked in) under its account *)
   Record eng : Type := mkEng {
@@ -114,7 +115,8 @@ Section Engine.
   | CCommit
   | CClear (hc : option N) (committed_blocks : list (N * N))     (* what the last commit made durable *)
            (nonces : kv N) (pool : list (N * N * N))             (* EVM state / pool re-read by the harness *)
-  | CReorg (n : N) (nonces : kv N) (pool : list (N * N * N)).
+  | CReorg (n : N) (nonces : kv N) (pool : list (N * N * N))
+  | CBadParams.   (* refused by the RPC glue before the engine is reached: both or neither of the two data encodings (select_bytes, C15) *)
 
   Inductive outcome : Type :=
   | ORejected
@@ -185,7 +187,10 @@ Section Engine.
         match find (fun b => fst b =? hgt) (g_blocks g) with
         | Some b => if snd b =? hash then (g, OOk 0) else (g, ORejected)
         | None =>
-            match exec_tx g 0 (nonce_of g 0) 0 ts hash hgt true with
+            (* genesis can only be the next block, and the controller is deployed once *)
+            if negb (hgt =? next_h g) || negb (nonce_of g IDX =? 0) then (g, ORejected)
+            else
+            match exec_tx g IDX (nonce_of g IDX) 0 ts hash hgt true with
             | None => (g, ORejected)
             | Some g1 =>
                 match finalise g1 ts hash hgt 1 with
@@ -194,6 +199,7 @@ Section Engine.
                 end
             end
         end
+    | CBadParams => (g, ORejected)
     | CCommit =>
         if negb (g_wait g =? 0) || g_dirty g then (g, ORejected) else (g, OOk 0)
     | CClear hc blocks nonces pool =>
